@@ -295,11 +295,10 @@ Theorem model_ok_spec_ok_delim (c : case) :
   k_fmt c = Delim -> k_header c = [] -> k_alt_file c = [] ->
   hist_ok Delim (k_hist c) -> tail_appends (k_hist c) ->
   Forall (row_ok no_float_value (k_schema c)) (rows_of_hist (k_hist c)) ->
-  id_cols_ok (k_schema c) (rows_of_hist (k_hist c)) = true ->
   forallb float_free_row (rows_of_hist (k_hist c)) = true ->
   model_ok c = true -> spec_ok c = true.
 Proof.
-  intros Hf Hhd Ha Hh Ht Hr Hid Hff. apply model_ok_spec_ok; rewrite ?Hf, ?Hhd; auto.
+  intros Hf Hhd Ha Hh Ht Hr Hff. apply model_ok_spec_ok; rewrite ?Hf, ?Hhd; auto.
   rewrite spec_file_headerless. apply parse_file_serialise_delim; assumption.
 Qed.
 Theorem model_ok_spec_ok_fasta (c : case) w :
@@ -326,14 +325,13 @@ Theorem model_ok_spec_ok_vcf (c : case) hls :
   k_fmt c = Vcf -> k_header c = header_of hls -> k_alt_file c = [] -> Forall header_line_ok hls ->
   hist_ok Vcf (k_hist c) -> tail_appends (k_hist c) ->
   Forall (vcf_row_ok no_float_value (k_schema c)) (rows_of_hist (k_hist c)) ->
-  id_cols_ok (k_schema c) (rows_of_hist (k_hist c)) = true ->
   forallb float_free_row (rows_of_hist (k_hist c)) = true ->
   model_ok c = true -> spec_ok c = true.
 Proof.
-  intros Hf Hhd Ha Hl Hh Ht Hr Hid Hff. apply model_ok_spec_ok; rewrite ?Hf, ?Hhd; auto.
+  intros Hf Hhd Ha Hl Hh Ht Hr Hff. apply model_ok_spec_ok; rewrite ?Hf, ?Hhd; auto.
   unfold parse_file, parse_raw, spec_file.
   destruct (spec_header_cases (header_of hls) (k_hist c)) as [-> | ->].
-  - rewrite parse_serialise_vcf by assumption. rewrite Hid, orb_true_r. reflexivity.
+  - rewrite parse_serialise_vcf by assumption. reflexivity.
   - change (@nil Z) with (header_of []).
-    rewrite (parse_serialise_vcf no_float_value (k_schema c) [] _ ltac:(constructor) Hr). rewrite Hid, orb_true_r. reflexivity.
+    rewrite (parse_serialise_vcf no_float_value (k_schema c) [] _ ltac:(constructor) Hr). reflexivity.
 Qed.
